@@ -6,7 +6,7 @@ A system description (`sd`) is plain JSON:
    'pairs': {'01': {'clo': [kind, hc] | None, 'pot': [kind, sigma|None, params...] | None,
                     'om': [kind, N, params...] | None}, ...}}      (keys 'ij' with i <= j)
 """
-import math
+import math, json
 from .implenv import np, pyPRISM
 from .driver import f2h, fl, h2f
 from pyPRISM.core.Space import Space
@@ -51,14 +51,19 @@ def pairs_of(n):
 
 def build_system(sd):
     n = sd['n']; types = TYPES[:n]
-    s = pyPRISM.System(types, kT=sd['kT'])
+    if sd.get('kT_assign'):
+        s = pyPRISM.System(types, kT=sd['kT_assign']); s.kT = sd['kT']          # the documented attribute is (re-)assigned after construction (temperature sweeps)
+    else:
+        s = pyPRISM.System(types, kT=sd['kT'])
     if sd.get('dom') is not None:
         if sd.get('dom_from_dk'):
             s.domain = pyPRISM.Domain(length=sd['dom'][0], dk=math.pi / (sd['dom'][1] * sd['dom'][0]))      # the same grid, configured through dk
         else:
             s.domain = pyPRISM.Domain(length=sd['dom'][0], dr=sd['dom'][1])
+    grp = [t for t, v in enumerate(sd['dens']) if v is not None and v == sd['dens'][0]] if sd.get('dens_group') else []
     for t, v in enumerate(sd['dens']):
-        if v is not None: s.density[types[t]] = v
+        if v is not None and t not in grp[1:]: s.density[types[t]] = v
+    if len(grp) >= 2: s.density[[types[t] for t in grp]] = sd['dens'][0]          # several types in ONE statement, as the last density assignment
     for t, v in enumerate(sd['diam']):
         if v is not None: s.diameter[types[t]] = v
     prs = [sd['pairs'].get('%d%d' % (i, j), {}) for (i, j) in pairs_of(n)]
@@ -67,6 +72,22 @@ def build_system(sd):
         if sd.get('group') and n >= 2 and specs[0] is not None and all(sp == specs[0] for sp in specs):
             # tutorial style: ONE object assigned to all pairs in one statement
             table[types, types] = mk(specs[0])
+        elif sd.get('share'):
+            # ONE Python object per distinct specification, assigned pair by pair (U = HardSphere(); for a, b in pairs: sys.potential[a, b] = U)
+            made = {}
+            for (i, j), sp in zip(pairs_of(n), specs):
+                if sp is None: continue
+                key = json.dumps(sp)
+                if key not in made: made[key] = mk(sp)
+                table[types[i], types[j]] = made[key]
+        elif sd.get('setunset') and n >= 2 and specs[-1] is not None:
+            # every pair that differs from the last specification is assigned explicitly, the rest is filled by setUnset
+            for (i, j), sp in zip(pairs_of(n), specs):
+                if sp is not None and sp != specs[-1]: table[types[i], types[j]] = mk(sp)
+            if all(sp is not None for sp in specs): table.setUnset(mk(specs[-1]))
+            else:
+                for (i, j), sp in zip(pairs_of(n), specs):
+                    if sp is not None and sp == specs[-1]: table[types[i], types[j]] = mk(sp)
         else:
             for (i, j), sp in zip(pairs_of(n), specs):
                 if sp is not None: table[types[i], types[j]] = mk(sp)
@@ -238,6 +259,20 @@ def gen_system(rng, maxn=3, maxL=32, soft_ok=True, distinct=True):
         pot = gen_pot(rng, sig, soft_ok)
         sd['pairs']['%d%d' % (i, j)] = {'pot': pot, 'clo': gen_clo(rng, pot[0]),
                                         'om': gen_om_diag(rng, L) if i == j else gen_om_off(rng, L)}
+    if rng.random() < 0.3: sd['kT_assign'] = rng.choice([1.0, 0.5, 3.0, sd['kT'] * 2])
+    if n >= 2 and rng.random() < 0.25:
+        k = rng.randint(2, n)
+        for t in range(k): sd['dens'][t] = sd['dens'][0]
+        sd['dens_group'] = True
+    how = rng.random()
+    if n >= 2 and how < 0.35:
+        # the same sigma-less potential (and the same closure) for several pairs, reaching the tables as ONE object assigned pair by pair
+        # or through setUnset: sigma must still come out per pair from the diameters
+        p0 = sd['pairs']['00']['pot']; c0 = sd['pairs']['00']['clo']
+        for (i, j) in pairs_of(n):
+            if rng.random() < 0.8:
+                sd['pairs']['%d%d' % (i, j)]['pot'] = [p0[0], None] + list(p0[2:]); sd['pairs']['%d%d' % (i, j)]['clo'] = list(c0)
+        sd['share' if how < 0.2 else 'setunset'] = True
     return sd
 
 def gen_x(rng, sd, kind=None):
